@@ -37,6 +37,9 @@ type MultiScenario struct {
 	Sessions []MSess     `json:"sessions"`
 	Tr       Transport   `json:"tr"`
 	Free     bool        `json:"free,omitempty"` // free-running transports (race detector runs)
+	// TinyFree: free-running sessions on pipes of a few bytes with output
+	// options: a timeout (twice) is a deadlock, not harness trouble
+	TinyFree bool `json:"tiny_free,omitempty"`
 }
 
 type C18Scenario struct {
@@ -97,6 +100,20 @@ func (c18) Generate(seed uint64, tier string, index int) any {
 			}
 			s.CapCS, s.CapSC = pick(), pick()
 			ms.Sessions = append(ms.Sessions, s)
+		}
+		if !race && g.R.Intn(8) == 0 {
+			// one to three sessions, free-running, on pipes of a few bytes, with
+			// output options: locks shared between the two directions show up
+			// as a run that never ends
+			ms.Free, ms.TinyFree = true, true
+			ms.Sessions = nil
+			extra := [][]string{{}, {"-v"}, {"--progress"}, {"-vv", "--progress"}, {"--info=NAME"}, {"--debug=RECV,SEND"}}[g.R.Intn(6)]
+			capacity := []int{12, 16, 64, 700, 4096}[g.R.Intn(5)] // (a daemon greeting needs 12 bytes per direction)
+			for i := 0; i < 1+g.R.Intn(3); i++ {
+				ms.Sessions = append(ms.Sessions, MSess{Kind: []string{"pull", "pull", "push-distinct"}[g.R.Intn(3)], CapCS: capacity, CapSC: capacity, Opts: append([]string{"-rlptD"}, extra...)})
+			}
+			ms.Tr = g.TransportFor(12, 4*treeBytes(&ms.Src))
+			return &C18Scenario{Mode: "multi", Multi: ms}
 		}
 		if !race && g.R.Intn(3) == 0 {
 			// stalled peers: some (sometimes more than there are CPUs) pulling
@@ -444,6 +461,21 @@ func runMulti(t *testing.T, ms *MultiScenario, lay Layout, res *Result) {
 	res.Probe("concurrent_sessions", len(ms.Sessions))
 	if ms.Free {
 		res.Probe("free_running_runs", 1)
+	}
+	if out.timeout && ms.TinyFree {
+		// sessions that finished in milliseconds when run alone did not finish in
+		// 90 s of wall-clock time on small free-running pipes: once more, and if
+		// it happens again this is a deadlock the scheduled mode cannot see
+		// (goroutines waiting for a lock instead of for the transport)
+		if err := setup(); err == nil {
+			again := execMulti(t, ms, lay, rw)
+			if again.timeout {
+				res.Violate("deadlock", "deadlock:free-running", fmt.Sprintf("%d session(s) with options %v on free-running pipes of %d bytes did not finish within 90 s, twice; alone and on large buffers the same sessions take milliseconds\nserver log: %s", len(ms.Sessions), ms.Sessions[0].Opts, ms.Sessions[0].CapSC, tail(again.srvLog, 1200)))
+				return
+			}
+		}
+		res.Inconclusive = "free-running run timed out once and finished on the second attempt"
+		return
 	}
 	if out.timeout {
 		res.Inconclusive = "free-running multi-session run did not finish within the watchdog"
